@@ -8,6 +8,7 @@ import (
 	"strings"
 
 	"github.com/google/reftable"
+	"verif/harness/eng"
 	"verif/harness/gen"
 	"verif/harness/rep"
 	"verif/harness/rtx"
@@ -482,6 +483,24 @@ func RunC07(c *Ctx) {
 	for idx := 0; idx < 24; idx++ {
 		if c.Mine(idx) {
 			runCapacityWindow(c, idx)
+		}
+	}
+	// compactions whose reads of the input tables (and other filesystem calls) fail once:
+	// under the engine's commit monitor a compaction either fails or commits a table with
+	// exactly the content of its inputs - a read error never becomes a shorter table
+	e := newEngRunner(c)
+	defer e.cleanup()
+	idx := 0
+	for oi, op := range []string{"compactall", "autocompact", "cr01", "compactexpiry", "add", "addbig"} {
+		for ri, rec := range []eng.Recipe{{-3, 0}, {-3, -3, 0}, {200, 40, 0, 0}, {-3, 60, 0}} {
+			gcfg := engCfg(oi + ri)
+			if rec[0] == -3 {
+				gcfg.BlockSize = 512
+			}
+			if c.Mine(idx) {
+				e.faultSweep("io-fault-sweep(compaction inputs)", idx, gcfg, rec, op, "add,compactall", false)
+			}
+			idx++
 		}
 	}
 }
